@@ -53,6 +53,11 @@ type History struct {
 	Wide     int     `json:"wide,omitempty"`
 	WideG    float64 `json:"wide_g,omitempty"`
 	WideSeed uint64  `json:"wide_seed,omitempty"`
+	// NaNTail n > 0 (C11 only, round 13): after the history, and after everything else has been judged, 3*Max finite
+	// boxes and n boxes with a NaN coordinate are stored as *geom.Bounds pointers and the n are deleted again: Delete
+	// has to find a stored object by identity whatever its box is, and Size has to follow. What a search returns for a
+	// box that is not a set of points is not judged, and the structure is not looked at once such a box is in it
+	NaNTail int `json:"nan_tail,omitempty"`
 }
 
 // custom comparable object
